@@ -73,6 +73,31 @@ Theorem C17_indent_rejects_illformed : forall ind bs, parse bs = None -> indent_
 Proof. exact indent_go_none. Qed.
 Print Assumptions C17_indent_rejects_illformed.
 
+(* ---- wiring of OutputFacts.v / PrintParse.v: what Compact / Indent write is a JSON text with the value of
+   the input, and decoding then encoding a well-formed text reproduces its tree / value ---- *)
+From JP Require Import PrintParse OutputFacts.
+
+Theorem C17_compact_output_value : forall esc bs out, compact_go esc bs = Some out ->
+  exists t, parse bs = Some t /\ parse out = Some (escape_tree esc t) /\ den (escape_tree esc t) = den t /\
+            valid_gen out = true.
+Proof. exact compact_output_value. Qed.
+Print Assumptions C17_compact_output_value.
+
+Theorem C17_indent_output_value : forall ind bs out, wsb ind = true -> indent_go ind bs = Some out ->
+  exists t, parse bs = Some t /\ parse out = Some t /\ valid_gen out = true.
+Proof. exact indent_output_value. Qed.
+Print Assumptions C17_indent_output_value.
+
+(* decode then encode then decode: the same tree (no escaping) / the same value (HTML escaping) *)
+Theorem C17_decode_encode_decode : forall bs t, parse bs = Some t -> parse (print false t) = Some t.
+Proof. exact parse_print_parse. Qed.
+Print Assumptions C17_decode_encode_decode.
+
+Theorem C17_decode_encode_decode_esc : forall bs t, parse bs = Some t ->
+  exists t', parse (print true t) = Some t' /\ den t' = den t.
+Proof. exact parse_print_parse_esc. Qed.
+Print Assumptions C17_decode_encode_decode_esc.
+
 Example C17_nonvacuous :
   let b := [x61; xc3; xa9; xf0; x9f; x98; x80; x5c; x75; x64; x38; x30; x30; x78; x5c; x6e; x3c] in
   unquote b = [x61; xc3; xa9; xf0; x9f; x98; x80; xef; xbf; xbd; x78; x0a; x3c] /\
